@@ -1479,6 +1479,16 @@ func (env *SpecEnv) uncapturedOuter(name string) (sval, bool) {
 			}
 		}
 		if t == nil {
+			// variables captured by other closures live in heap cells
+			for _, b := range p.Blocks {
+				for _, in := range b.Instrs {
+					if a, ok := in.(*ssa.Alloc); ok && a.Comment == name {
+						t = a.Type().Underlying().(*types.Pointer).Elem()
+					}
+				}
+			}
+		}
+		if t == nil {
 			// SSA registers: look for a DebugRef of that name
 			for _, b := range p.Blocks {
 				for _, in := range b.Instrs {
